@@ -439,6 +439,11 @@ pub fn scan_repository_multi(
         }
 
         let path = entry.path().to_path_buf();
+        // A plan is a JSON document: a path that is not valid UTF-8 cannot be recorded in it (nor in
+        // the history), so such an entry is left alone rather than edited and then not recorded
+        if path.to_str().is_none() {
+            continue;
+        }
         let relative = roots
             .iter()
             .find_map(|root| path.strip_prefix(root).ok())
@@ -1423,6 +1428,9 @@ fn process_path_renames(
     for entry in builder.build() {
         let entry = entry?;
         let path = entry.path();
+        if path.to_str().is_none() {
+            continue; // not representable in a plan (see scan_repository_multi)
+        }
         let relative_path = path.strip_prefix(root).unwrap_or(path);
 
         // Skip if doesn't match includes or matches excludes
@@ -1540,6 +1548,9 @@ pub fn create_simple_plan(
     for entry in builder.build() {
         let entry = entry?;
         let path = entry.path();
+        if path.to_str().is_none() {
+            continue; // not representable in a plan (see scan_repository_multi)
+        }
         let relative_path = path.strip_prefix(&root).unwrap_or(path);
 
         // Skip if doesn't match includes or matches excludes
